@@ -240,8 +240,16 @@ def _check_sample(ctx, run, vine, df, n, cond):
     calls = rec.calls
     e = vine.trees[0].edges[0]
     fam, theta = vinelib.fam_of(e), float(e.theta)
-    if len(calls) == 2 * n and all(calls[2 * i]['name'] == 'uniform'
-                                   and calls[2 * i + 1]['name'] == 'randint' for i in range(n)):
+    try:
+        in_range = abs(refs.tau_of_theta(fam, theta)) <= 0.8
+    except Exception:
+        in_range = False
+    if not in_range:
+        # outside the range over which the families' closed forms are quantified (C06-C08) the
+        # library's conditional cdf and its inverse lose digits; the refinement would test them
+        ctx.probes['two_column_refinement_skipped_tau_above_0.8'] += 1
+    elif len(calls) == 2 * n and all(calls[2 * i]['name'] == 'uniform'
+                                     and calls[2 * i + 1]['name'] == 'randint' for i in range(n)):
         ctx.probes['two_column_protocol_recognised'] += 1
         X = S.to_numpy()
         bad = 0
@@ -261,7 +269,9 @@ def _check_sample(ctx, run, vine, df, n, cond):
                 ctx.probes['sampling_clip_active'] += 1
                 continue
             h = float(refs.hfunc(fam, theta, np.array([Fx]), np.array([unis[first]]))[0])
-            if not np.isclose(h, unis[other], rtol=0, atol=2e-5):
+            dens = float(refs.density(fam, theta, np.array([Fx]), np.array([unis[first]]))[0])
+            # F(x) is known to the root finder's tolerance only; h amplifies it by the density
+            if not np.isclose(h, unis[other], rtol=0, atol=2e-5 + 1e-7 * max(dens, 0.0)):
                 bad += 1
                 ctx.violate('d_second_column_follows_pair_copula', SUBJECT_SAMPLE,
                             'row %d: h(F(x_%d) | u_%d) = %r but the draw was %r (%s theta=%r)'
